@@ -51,7 +51,9 @@ ASSUMPTIONS = [
     "the largest cost of the triple",
 ]
 
-TRIPLE_ALPHABET = [float("nan"), 0.0, 1.0, 2.0, 3.0, 0.5, 1e-16, 1e6]
+# 1000001 / 1000003: a high cost level with slopes of a few units (exact in float32): what is an extremum must not
+# depend on the level of the costs
+TRIPLE_ALPHABET = [float("nan"), 0.0, 1.0, 2.0, 3.0, 0.5, 1e-16, 1e6, 1000001.0, 1000003.0]
 VEC_ALPHABET = [float("nan"), 0.0, 1.0, 2.0, 3.0]
 FLAGS_ALL = [0, 4, 1, 2, 64, 128, 256, 512, 8, 16, 32, 12, 2048 + 1024, 8 + 16]
 FLAGS_QUICK_SINGLE = [0, 4, 1, 8, 256]
